@@ -66,7 +66,8 @@ partial def clsOfJson (j : Json) : Except String Cls := do
   let top ← (← j.getObjVal? "top").getStr?
   let fields ← (← (← j.getObjVal? "fields").getArr?).toList.mapM fldOfJson
   let ci := cinfoOf g top
-  pure { own := ci.ser, fields, des := ci.des, closedOwn := ci.closedOwn, closedAny := ci.closedAny }
+  let cid := match j.getObjVal? "cid" with | .ok (.str n) => n | _ => ""
+  pure { own := ci.ser, fields, des := ci.des, closedOwn := ci.closedOwn, closedAny := ci.closedAny, cid }
 partial def fldOfJson (j : Json) : Except String Fld := do
   let n ← (← j.getObjVal? "n").getStr?
   let opt ← (← j.getObjVal? "opt").getBool?
@@ -75,7 +76,7 @@ partial def fldOfJson (j : Json) : Except String Fld := do
     let c ← clsOfJson cj
     let sh ← (← j.getObjVal? "shape").getStr?
     pure (.nested n opt (if sh == "one" then .one else .many)
-      { ser := c.own, des := c.des, closedOwn := c.closedOwn, closedAny := c.closedAny } c.fields)
+      { ser := c.own, des := c.des, closedOwn := c.closedOwn, closedAny := c.closedAny, cid := c.cid } c.fields)
   | .error _ => pure (.scalar n opt)
 end
 
@@ -142,7 +143,7 @@ def runOne (cache : Cache) (j : Json) : Except String (List (String × Json) × 
     | _, _ => ""
   let wrapOk := wrapperOk S (c.fields.map Fld.name) ovKeys
   -- the serializer runs (and fills the cache) only if the wrapper was built
-  let (ms, cache') := if wrapOk then cachedAggregate S cache cid ovKey c.own c.fields ov camel
+  let (ms, cache') := if wrapOk then cAggregate S cache cid ovKey c.own c.fields ov camel
     else (aggregate S true c.own c.fields ov camel, cache)
   let md := aggregate S false c.desL c.fields ov camel
   let doc := ser S camel ms x
@@ -159,6 +160,9 @@ def runOne (cache : Cache) (j : Json) : Except String (List (String × Json) × 
     ("aggD", mvToJson (.sub md)),
     ("wrapper", Json.bool wrapOk),
     ("cacheHit", Json.bool (cache'.length == cache.length && wrapOk)),
+    -- the entries this call filed in the process-wide cache (nested classes first)
+    ("cacheNew", Json.arr ((cache'.drop cache.length).map fun (k, m) =>
+      Json.arr #[.str k.1, .str (if k.2.1 == "" then "" else "ov"), .bool k.2.2, mvToJson (.sub m)]).toArray),
     ("hyp", Json.mkObj [
       ("rt", Json.bool (rtClsK S camel ku (levelOK S) c ms ov strict xc)),
       ("rtNoKu", Json.bool (rtCls S camel (levelOK S) c ms ov strict xc)),
